@@ -48,8 +48,8 @@ ANCHORS = ['pfhedge.nn.functional:d1',
            'pfhedge.nn.modules.bs._base:acquire_params_from_derivative_0',
            'pfhedge.nn.modules.bs._base:acquire_params_from_derivative_1',
            'pfhedge.nn.modules.bs._base:acquire_params_from_derivative_2']
-DECIDING = ["price.european", "price.european_binary", "price.american_binary", "price.lookback", "module.plumbing"]
-REQUIRED_BRANCHES = ["module.resimulated_through_underlier", "american_binary.max==strike>spot", "european.put", "european_binary.put", "american_binary.max>=strike", "american_binary.max<strike",
+DECIDING = ["module.partial_arguments", "module.own_contract_with_derivative_state", "price.european", "price.european_binary", "price.american_binary", "price.lookback", "module.plumbing"]
+REQUIRED_BRANCHES = ["module.partial.max_omitted_spot_given", "module.resimulated_through_underlier", "american_binary.max==strike>spot", "european.put", "european_binary.put", "american_binary.max>=strike", "american_binary.max<strike",
                      "lookback.max>=strike", "lookback.max<strike", "strike!=1"]
 
 _CTX = None
@@ -296,6 +296,47 @@ def drv_module(ctx, k, rng):
     ctx.check(mon, ok, "plumbing", f"BlackScholes({type(d).__name__}(call={call}, strike={K})).price() differs from the functional form on the "
               "derivative's own state", sig=(kind, call, K == 1.0, str(dtype), type(stock).__name__), price=price[0, :4], want=want[0, :4],
               module_strike=m.strike, module_call=getattr(m, "call", None))
+    # only some of the arguments given (a shocked spot, another volatility, ...): each omitted one is the derivative's own, each given one is used as given
+    mon = "module.partial_arguments"
+    shocked = {"log_moneyness": s - 0.1, "time_to_maturity": tt + 0.05, "volatility": v * 1.3}
+    own = {"log_moneyness": s, "time_to_maturity": tt, "volatility": v}
+    path = kind in ("american_binary", "lookback")
+    if path:
+        shocked["max_log_moneyness"] = mlm + 0.07
+        own["max_log_moneyness"] = mlm
+    names_ = list(own)
+    for _ in range(2):
+        given = [n_ for n_ in names_ if rng.random() < 0.5]
+        if not given or len(given) == len(names_):
+            continue
+        ctx.seen(mon)
+        ctx.branch("module.partial." + ("max_omitted_spot_given" if path and "log_moneyness" in given and "max_log_moneyness" not in given else "other"))
+        full = {n_: (shocked[n_] if n_ in given else own[n_]) for n_ in names_}
+        with torch.no_grad():
+            got = m.price(**{n_: shocked[n_] for n_ in given})
+            if kind == "european":
+                ref = F.bs_european_price(full["log_moneyness"], full["time_to_maturity"], full["volatility"], strike=K, call=call)
+            elif kind == "european_binary":
+                ref = F.bs_european_binary_price(full["log_moneyness"], full["time_to_maturity"], full["volatility"], call=call)
+            elif kind == "american_binary":
+                ref = F.bs_american_binary_price(full["log_moneyness"], full["max_log_moneyness"], full["time_to_maturity"], full["volatility"])
+            else:
+                ref = F.bs_lookback_price(full["log_moneyness"], full["max_log_moneyness"], full["time_to_maturity"], full["volatility"], strike=K)
+        okp = got.shape == ref.shape and bool((((got - ref).abs() <= 64 * e_ * (ref.abs() + K + 1)) | (torch.isnan(got) & torch.isnan(ref))).all())
+        ctx.check(mon, okp, "partial_arguments", f"BlackScholes({type(d).__name__}).price({', '.join(given)}=...) does not use the given arguments together with the "
+                  f"derivative's own for the omitted ones", sig=(kind, tuple(given)), given=given, got=got[0, :4], want=ref[0, :4])
+    # a module built directly: its own contract flag wins over the attached derivative's (which only supplies the state)
+    if kind in ("european", "european_binary") and rng.random() < 0.5:
+        mon = "module.own_contract_with_derivative_state"
+        ctx.seen(mon)
+        cls = BSEuropeanOption if kind == "european" else BSEuropeanBinaryOption
+        m2 = cls(call=not call, strike=K, derivative=d)
+        with torch.no_grad():
+            got = m2.price()
+            ref = (F.bs_european_price(s, tt, v, strike=K, call=not call) if kind == "european" else F.bs_european_binary_price(s, tt, v, call=not call))
+        ctx.check(mon, bool(((got - ref).abs()[:, :-1] <= 64 * e_ * (ref.abs()[:, :-1] + K + 1)).all()), "own_contract",
+                  f"{cls.__name__}(call={not call}, strike={K}, derivative=<{'call' if call else 'put'}>) does not price its own contract on the derivative's state",
+                  sig=(kind, call), got=got[0, :4], want=ref[0, :4])
     if k < 3:
         ctx.sample({"driver": "module", "derivative": repr(d)[:160], "price_row0": price[0, :4]})
 
